@@ -27,6 +27,7 @@ import uuid
 import warnings
 import weakref
 from contextlib import AbstractContextManager, contextmanager
+from copy import deepcopy
 from gc import collect
 from getpass import getuser
 from io import BytesIO
@@ -271,6 +272,11 @@ class Workspace(AbstractContextManager):
             omit_list=["_workspace", "_on_file"] + list(omit_list),
         )
 
+        # the copy must not share mutable values with its source
+        for attributes in (entity_kwargs, entity_type_kwargs):
+            for key, value in attributes.items():
+                attributes[key] = self._detached(value)
+
         # overwrite kwargs
         entity_kwargs.update(
             (k, kwargs[k]) for k in entity_kwargs.keys() & kwargs.keys()
@@ -308,6 +314,34 @@ class Workspace(AbstractContextManager):
             clear_array_attributes(new_object)
 
         return new_object
+
+    @staticmethod
+    def _detached(value):
+        """
+        Return an independent copy of a mutable attribute value harvested from an
+        entity (arrays, dictionaries, lists of plain values, colour and value maps).
+        """
+        if isinstance(value, np.ndarray):
+            return value.copy()
+
+        if isinstance(value, dict) or (
+            isinstance(value, list) and not any(hasattr(val, "uid") for val in value)
+        ):
+            return deepcopy(value)
+
+        if isinstance(value, data.ReferenceValueMap):
+            return dict(value.map)
+
+        if (
+            isinstance(value, data.data_type.ColorMap)
+            and getattr(value, "_values", None) is not None
+        ):
+            return {
+                "values": value._values.copy(),  # pylint: disable=protected-access
+                "name": value.name,
+            }
+
+        return value
 
     @classmethod
     def copy_property_groups(
